@@ -7,7 +7,7 @@ ID = "C09"
 TITLE = "Ensemble solvers return the best member and account for all work"
 PROPS_FILE = "Props/Properties_C09.v"
 LEVEL = "proof"
-SIZES = {"quick": 420, "thorough": 4200}
+SIZES = {"quick": 600, "thorough": 3000}
 PARALLEL = True
 SHARD = 120
 COQ_TIMEOUT = 900
@@ -207,7 +207,8 @@ def generate(rng, n, tier):
             yield _pts_case(rng, k)
 
 
-EXHAUSTIVE["thorough"] = True   # the gridpts sub-domain (all shapes with <= 4 axes of 0..4 bins) is swept exhaustively
+# thorough: the gridpts sub-domain (all shapes with <= 4 axes of 0..4 bins) is swept exhaustively; the other kinds are sampled,
+# so the evidence does not claim an exhaustive exploration
 
 
 def run_impl(case):
